@@ -193,7 +193,9 @@ def decide(prop: str, vres: dict, kani: dict, tier: str, seed: int, t0: float, m
         incomplete |= tainted
     for f in vres.get('failures', []):
         fi = fninfo.get(f.get('fn'))
-        if f.get('fn') in incomplete and f['class'] != 'unsupported':
+        raw0 = (fi or {}).get('raw_transfers') or []
+        c10_raw = prop == 'C10' and f['class'] == 'post' and any(not x['in_loop'] for x in raw0)
+        if f.get('fn') in incomplete and f['class'] != 'unsupported' and not c10_raw:
             if f.get('fn') in fns_serving:
                 undecided.append('%s fails in %s, whose proof lost an anchor on this tree' % (f['class'], f.get('fn')))
             continue
